@@ -123,6 +123,21 @@ class Poly:
     def __repr__(self):
         return self.canon()
 
+    def pretty(self):
+        """compact canonical text (used for index keys): k+1, 2*k-1, -1"""
+        items = sorted(self.d.items(), key=lambda kv: (kv[0] == (), repr(kv[0])))
+        out = ''
+        for k, v in items:
+            mono = '*'.join(a if e == 1 else f'{a}**{e}' for a, e in k)
+            if not mono:
+                t = str(abs(v))
+            elif abs(v) == 1:
+                t = mono
+            else:
+                t = f'{abs(v)}*{mono}'
+            out += ('-' if v < 0 else ('+' if out else '')) + t
+        return out or '0'
+
 
 ONEP = Poly.const(1)
 
@@ -421,6 +436,10 @@ class Ev:
             v = self.env.get(e.id)
             if isinstance(v, str):      # alias to a heap key
                 return v
+            if isinstance(v, Rat) and v.d == ONEP and len(v.n.d) == 1:
+                (k, c), = v.n.d.items()
+                if c == 1 and len(k) == 1 and k[0][1] == 1:
+                    return k[0][0]      # pure alias of a named object
             if e.id == 'self':
                 return self.self_prefix
             return e.id
@@ -446,7 +465,7 @@ class Ev:
                 c = v.n.constant() / v.d.constant()
                 return str(c)
             if isinstance(v, Rat) and v.d == ONEP:
-                return v.n.canon()
+                return v.n.pretty()
         except Inconclusive:
             pass
         return unparse(s)
@@ -480,6 +499,17 @@ class Ev:
                 base = self.env[e.value.id]
             elif isinstance(e.value, (ast.Tuple, ast.List)):
                 base = self.ev(e.value)
+            if isinstance(base, (tuple, list)) and isinstance(e.slice, ast.Slice):
+                def cint(x, default):
+                    if x is None:
+                        return default
+                    r = self.ev(x)
+                    if isinstance(r, Rat) and r.is_const():
+                        return int(r.n.constant() / r.d.constant())
+                    raise Inconclusive('non-constant slice bound')
+                sl = e.slice
+                return tuple(base[slice(cint(sl.lower, None) if sl.lower else None,
+                                        cint(sl.upper, None) if sl.upper else None)])
             if isinstance(base, (tuple, list)):
                 sl = e.slice
                 if isinstance(sl, ast.Tuple) and len(sl.elts) == 2 and \
@@ -668,6 +698,27 @@ class Ev:
                     self.assign(t, Rat.atom(f'{base}.{i}'))
             else:
                 raise Inconclusive('tuple unpack')
+        elif isinstance(tg, ast.Subscript) and isinstance(tg.value, ast.Name) \
+                and isinstance(self.env.get(tg.value.id), tuple):
+            cur = list(self.env[tg.value.id])
+            sl = tg.slice
+            n = len(cur)
+
+            def cint(x, default):
+                if x is None:
+                    return default
+                r = self.ev(x)
+                if isinstance(r, Rat) and r.is_const():
+                    return int(r.n.constant() / r.d.constant())
+                raise Inconclusive('non-constant slice bound')
+            if isinstance(sl, ast.Slice):
+                lo, hi = cint(sl.lower, 0), cint(sl.upper, n)
+                idx = list(range(*slice(lo, hi).indices(n)))
+                for j, i in enumerate(idx):
+                    cur[i] = v[j] if isinstance(v, tuple) else v
+            else:
+                cur[cint(sl, 0)] = v
+            self.env[tg.value.id] = tuple(cur)
         elif isinstance(tg, (ast.Attribute, ast.Subscript)):
             self.heap[self.key(tg)] = v
         else:
